@@ -67,6 +67,10 @@ class Report:
         else:
             self.ok(rule, key, "%d instances of %s (floor %d)" % (found, what, floor))
 
+    def analysis_failed(self, rule, what):
+        self.violation(rule, "%s|analysis-incomplete" % rule,
+                       "fail closed: %s. The construct is reported because the rules cannot certify it" % what)
+
     def anchor_missing(self, rule, what):
         self.violation(rule, "%s|anchor|%s" % (rule, what),
                        "anchor missing: %s not found in the analysed program" % what)
